@@ -3,7 +3,8 @@
 usage: seeded.py [dir ...]   (default: /verif/seeded/*)"""
 import glob, json, os, subprocess, sys
 V = os.path.dirname(os.path.dirname(os.path.abspath(__file__)))
-dirs = sys.argv[1:] or sorted(glob.glob(os.path.join(V, "seeded", "*")))
+record = "--record" in sys.argv
+dirs = [a for a in sys.argv[1:] if a != "--record"] or sorted(glob.glob(os.path.join(V, "seeded", "*")))
 man = json.load(open(os.path.join(V, "MANIFEST.json")))
 props = [c["property_id"] for c in man["checks"]]
 def sh(cmd, **kw):
@@ -31,5 +32,10 @@ for d in dirs:
     finally:
         sh("git -C /repo checkout -- .")
     clean = sh(f"PYTHONPATH=/repo timeout 120 /venv/bin/python {os.path.join(d, 'demo.py')}", cwd=d) if demo is not None else None
+    if record and meta:
+        meta["detected_by"] = hits
+        meta["verified"] = {"demo_exit_with_change": demo.returncode if demo else None, "demo_exit_clean": clean.returncode if clean else None,
+                            "ran": "git -C /repo apply patch.diff; demo.py; ./check <all 19>; git -C /repo checkout -- .; demo.py"}
+        json.dump(meta, open(os.path.join(d, "meta.json"), "w"), indent=1, ensure_ascii=False)
     print(f"{os.path.basename(d)}: property={meta.get('property')} demo(mutated)={demo.returncode if demo else '-'} demo(clean)={clean.returncode if clean else '-'} "
           f"DETECTED-BY={' '.join(hits) or 'NONE'}" + (f" analysis-errors={' '.join(errs)}" if errs else ""))
